@@ -8,7 +8,8 @@ AREA = "vp8l"
 COQ_TARGETS = ["theories/Props/C08.vo"]
 REQUIRES = ["From Coq Require Import List NArith ZArith Bool.",
             "From Coq.Strings Require Import Byte.",
-            "From MS Require Import Base.Bytes Base.Outcome Webp.Huffman Webp.HuffmanSpec Webp.BitBufSpec Webp.Vp8l Webp.Vp8lSpec Props.C08.",
+            "From MS Require Import Base.Bytes Base.Outcome Webp.Huffman Webp.HuffmanSpec Webp.BitBufSpec Webp.Vp8l Webp.Vp8lSpec "
+            "Webp.Vp8lProofsTop Props.C08.",
             "Import ListNotations.", "Open Scope N_scope."]
 COQCHK = ["MS.Props.C08"]
 from ._c07_theorems import THEOREMS_C08 as THEOREMS
@@ -62,9 +63,9 @@ def gen(run):
         yield l, "corpus"
     # (a) whole files
     glines, tags = [], []
-    for (w, h) in C.enc_sizes(rng, 50 if quick else 1200, 3 if quick else 30):
+    for (w, h) in C.enc_sizes(rng, 50 if quick else 700, 3 if quick else 30):
         glines.append(C.enc_line(rng, True, w, h)); tags.append("file-lossless")
-    for (w, h) in C.enc_sizes(rng, 30 if quick else 600, 1 if quick else 10):
+    for (w, h) in C.enc_sizes(rng, 30 if quick else 400, 1 if quick else 10):
         glines.append(C.enc_line(rng, False, w, h)); tags.append("file-lossy")
     for i in range(10 if quick else 200):
         cw, ch = rng.randint(8, 96), rng.randint(8, 96)
@@ -85,9 +86,10 @@ def gen(run):
     if nfail:
         run.notes.append("file corpus: %d of %d generator calls failed" % (nfail, len(files)))
     for f, tag in zip(files, tags):
-        if f is None or len(f) > 400000:
+        if f is None:
             continue
-        yield "sanitize %s" % C.hx(f), tag
+        if len(f) <= 80000:                 # whole-file cases are kept small; larger files are covered by their header phases below
+            yield "sanitize %s" % C.hx(f), tag
         # the lossless payloads of the file through the stream-level oracle as well
         for kind, w, h, body in C.lossless_payloads(f)[:3]:
             yield C.case(w, h, body[:60000]), "payload-" + kind
